@@ -35,6 +35,18 @@
 //! installation read cache, non-resident marking), every history ends with an audit that
 //! queries and reads every live key. The audit runs after the last operation of a history
 //! only, so it never perturbs the state that longer histories continue from.
+//!
+//! Pre-states ("start from non-initial states"):
+//! * `prefill`: one 200 000-byte object written and the store reopened.
+//! * `near_full(gap)`: one small object written, then `data.000` extended to `2^30 - gap`
+//!   bytes and the store reopened — the state every history of writes totalling just under
+//!   1 GiB leads to (`ArchiveManager` derives its append position from the file length only;
+//!   the extension is a hole, tmpfs files are sparse). 2^30 is where the 30-bit offset field
+//!   of a local index entry ends, so the histories that follow enumerate every way a small
+//!   alphabet of writes can fill, exactly fill, straddle or start behind that boundary, each
+//!   followed by reads, queries and reopen. The oracle is unchanged: what was written reads
+//!   back. Where the store puts the bytes (same file, next `data.NNN`) is not judged, only
+//!   counted.
 
 use crate::report::{Level, Report, Tier};
 use crate::seq::{SeqBounds, SeqRun, SeqSubject, explore};
@@ -106,6 +118,14 @@ pub const SIZES: [u32; 6] = [0, 1, 50, 100, 1000, 70_000];
 pub const LARGE: u32 = 70_000;
 /// Size of the object written by the pre-history of the `prefill` configurations.
 pub const PREFILL_SIZE: u32 = 200_000;
+/// Size of the object written by the pre-history of the `near_full` configurations (not a
+/// size class of the alphabet, so its key never coincides with a key of the history).
+pub const NEAR_PRE_SIZE: u32 = 300;
+/// End of the range an index entry can address inside one `data.NNN`: 30 offset bits.
+pub const ARCHIVE_FIELD_LIMIT: u64 = 1 << 30;
+/// Bytes every stored object occupies besides its payload: 30-byte local header + 9-byte
+/// BLTE frame (mode N).
+pub const ENTRY_OVERHEAD: u32 = 39;
 
 /// Own framing of a single-chunk, uncompressed BLTE file: magic, header size 0, mode 'N'.
 pub fn blte_n(data: &[u8]) -> Vec<u8> {
@@ -296,6 +316,15 @@ fn open_store(kind: Kind, dir: &Path) -> Result<Store, String> {
     }
 }
 
+/// Path of `data.NNN` of a store rooted at `dir` (an installation keeps it in `data/`).
+fn data_file(kind: Kind, dir: &Path, id: u16) -> PathBuf {
+    let base = match kind {
+        Kind::Inst => dir.join(cascette_client_storage::DATA_DIR),
+        Kind::Dyn { .. } | Kind::Arch(_) => dir.to_path_buf(),
+    };
+    base.join(format!("data.{id:03}"))
+}
+
 fn err_variant(e: &StorageError) -> &'static str {
     match e {
         StorageError::Io(_) => "Io",
@@ -389,6 +418,13 @@ pub struct Counters {
     pub same_key_rewrites: AtomicU64,
     pub writes_not_doubling: AtomicU64,
     pub writes_doubling: AtomicU64,
+    /// near-full pre-state: non-violating runs (explored histories, samples, minimisation
+    /// candidates) after which a `data.001` exists
+    pub hist_rolled_over: AtomicU64,
+    /// near-full pre-state: such runs after which `data.000` is longer than 2^30 bytes
+    pub hist_past_field_limit: AtomicU64,
+    /// near-full pre-state: such runs after which `data.000` is exactly 2^30 bytes long
+    pub hist_exact_fill: AtomicU64,
 }
 
 pub struct Subject {
@@ -397,6 +433,9 @@ pub struct Subject {
     /// pre-history: one PREFILL_SIZE object written and the store reopened (so that the
     /// mapping of the data file already covers a big file when the history starts)
     pub prefill: bool,
+    /// pre-history: one NEAR_PRE_SIZE object written, `data.000` extended to
+    /// `ARCHIVE_FIELD_LIMIT - gap` bytes, store reopened
+    pub near_full: Option<u32>,
     pub writes: Vec<(Class, u32, bool)>,
     pub max_writes: usize,
     pub max_large: usize,
@@ -421,10 +460,16 @@ impl Subject {
             let ekey = ekey_n(&bytes);
             table.insert((Class::Rand, PREFILL_SIZE), Arc::new(Pl { bytes, ekey }));
         }
+        {
+            let bytes = make_payload(Class::Rand, NEAR_PRE_SIZE, seed);
+            let ekey = ekey_n(&bytes);
+            table.insert((Class::Rand, NEAR_PRE_SIZE), Arc::new(Pl { bytes, ekey }));
+        }
         Subject {
             kind,
             seed,
             prefill,
+            near_full: None,
             writes,
             max_writes: 3,
             max_large: 3,
@@ -433,6 +478,12 @@ impl Subject {
             table,
             ctr: Counters::default(),
         }
+    }
+
+    /// Start every history from an archive that is `gap` bytes short of 2^30.
+    pub fn with_near_full(mut self, gap: u32) -> Subject {
+        self.near_full = Some(gap);
+        self
     }
 
     fn payload(&self, class: Class, size: u32) -> Arc<Pl> {
@@ -505,7 +556,11 @@ impl SeqSubject for Subject {
     type Op = Op;
 
     fn config_name(&self) -> String {
-        format!("{}|prefill={}|seed={}", self.kind.label(), self.prefill, self.seed)
+        let base = format!("{}|prefill={}|seed={}", self.kind.label(), self.prefill, self.seed);
+        match self.near_full {
+            Some(gap) => format!("{base}|gap={gap}"),
+            None => base,
+        }
     }
 
     fn sig_config(&self) -> String {
@@ -515,7 +570,11 @@ impl SeqSubject for Subject {
             Kind::Inst => "Installation".to_string(),
             Kind::Arch(m) => format!("ArchiveManager[{}]", m as char),
         };
-        if self.prefill { format!("{base}+prefill") } else { base }
+        let base = if self.prefill { format!("{base}+prefill") } else { base };
+        match self.near_full {
+            Some(gap) => format!("{base}+data.000@2^30-{gap}"),
+            None => base,
+        }
     }
 
     fn alphabet(&self) -> Vec<Op> {
@@ -620,6 +679,40 @@ impl SeqSubject for Subject {
                     return fail(0, "reopen-failed", format!("pre-history write({PREFILL_SIZE});reopen: {e}"), calls);
                 }
                 Err(p) => return fail(0, "panic", format!("pre-history reopen panicked: {p}"), calls),
+            };
+            calls += 2;
+        }
+
+        if let Some(gap) = self.near_full {
+            let pl = self.payload(Class::Rand, NEAR_PRE_SIZE);
+            match catch(|| store.write(&pl, false, &[])) {
+                Ok(Ok((key, loc, _))) => {
+                    live.insert(key, Live { loc, pl: pl.clone(), who: "pre-object".into() });
+                }
+                Ok(Err(e)) => return machinery(format!("near-full pre-history write failed: {e}"), calls),
+                Err(p) => return machinery(format!("near-full pre-history write panicked: {p}"), calls),
+            }
+            drop(store);
+            // stand-in for (2^30 - gap) bytes of earlier writes: the file gets that length
+            let data0 = data_file(self.kind, &dir, 0);
+            let target = ARCHIVE_FIELD_LIMIT - u64::from(gap);
+            let grown = std::fs::OpenOptions::new().write(true).open(&data0).and_then(|f| {
+                let len = f.metadata()?.len();
+                if len == 0 || len > target {
+                    return Err(std::io::Error::other(format!("data.000 has {len} bytes after the pre-history write")));
+                }
+                f.set_len(target)
+            });
+            if let Err(e) = grown {
+                return machinery(format!("cannot extend {} to {target} bytes: {e}", data0.display()), calls);
+            }
+            file_len = target;
+            store = match catch(|| open_store(self.kind, &dir)) {
+                Ok(Ok(s)) => s,
+                Ok(Err(e)) => {
+                    return fail(0, "reopen-failed", format!("pre-history write({NEAR_PRE_SIZE});[data.000 grows to 2^30-{gap}];reopen: {e}"), calls);
+                }
+                Err(p) => return fail(0, "panic", format!("pre-history reopen of a {target}-byte data.000 panicked: {p}"), calls),
             };
             calls += 2;
         }
@@ -750,7 +843,7 @@ impl SeqSubject for Subject {
         }
 
         // audit after the last operation: every live key is present and reads back exactly
-        if !hist.is_empty() || self.prefill {
+        if !hist.is_empty() || self.prefill || self.near_full.is_some() {
             let last = hist.len().saturating_sub(1);
             for (key, lv) in &live {
                 calls += 2;
@@ -781,6 +874,18 @@ impl SeqSubject for Subject {
             }
         }
         drop(store);
+        if self.near_full.is_some() {
+            // where the bytes went is not judged, only counted (evidence + vacuity guard)
+            let len0 = std::fs::metadata(data_file(self.kind, &dir, 0)).map(|m| m.len()).unwrap_or(0);
+            if len0 > ARCHIVE_FIELD_LIMIT {
+                self.ctr.hist_past_field_limit.fetch_add(1, Ordering::Relaxed);
+            } else if len0 == ARCHIVE_FIELD_LIMIT {
+                self.ctr.hist_exact_fill.fetch_add(1, Ordering::Relaxed);
+            }
+            if data_file(self.kind, &dir, 1).exists() {
+                self.ctr.hist_rolled_over.fetch_add(1, Ordering::Relaxed);
+            }
+        }
         SeqRun::ok(fnv64_str(&log), calls)
     }
 }
@@ -886,6 +991,13 @@ fn subjects(tier: Tier, seed: u64) -> Vec<(Subject, usize, u64)> {
             let pw = [(Class::Rand, 0), (Class::Rand, 100), (Class::Rand, 1000), (Class::Nested, 100)];
             out.push((Subject::new(Kind::Dyn { lru: false }, seed, true, with_flags(&pw, false, &[])), 3, 20));
             out.push((Subject::new(Kind::Inst, seed, true, with_flags(&pw, false, &[])), 3, 20));
+            // pre-state: data.000 ends `gap` bytes before 2^30 (entries occupy size + 39 bytes:
+            // 39 / 139 / 1039 for the three writes below). gap 0: already at the boundary;
+            // 1: nothing fits; 139: write(100) fills it exactly; 140: one byte stays free.
+            let nw = [(Class::Rand, 0), (Class::Rand, 100), (Class::Rand, 1000)];
+            for gap in NEAR_GAPS_QUICK {
+                out.push((Subject::new(Kind::Inst, seed, false, with_flags(&nw, false, &[])).with_near_full(gap), 4, 15));
+            }
         }
         Tier::Thorough => {
             // the full product payload class × size class at depth 4 ...
@@ -909,10 +1021,43 @@ fn subjects(tier: Tier, seed: u64) -> Vec<(Subject, usize, u64)> {
             }
             out.push((Subject::new(Kind::Dyn { lru: false }, seed, true, with_flags(&q, false, &[])), 4, 100));
             out.push((Subject::new(Kind::Inst, seed, true, with_flags(&q, false, &[])), 4, 100));
+            // near-full pre-states, one level deeper, more gaps (exact fits of one, two and
+            // three entries, the large size class) and a payload that is itself a BLTE file
+            let nw = [(Class::Rand, 0), (Class::Rand, 100), (Class::Rand, 1000), (Class::Rand, 70_000), (Class::Nested, 100)];
+            for gap in NEAR_GAPS_THOROUGH {
+                let mut s = Subject::new(Kind::Inst, seed, false, with_flags(&nw, false, &[])).with_near_full(gap);
+                s.max_large = 1;
+                out.push((s, 4, 120));
+            }
+            // the quick alphabet one level deeper
+            let nq = [(Class::Rand, 0), (Class::Rand, 100), (Class::Rand, 1000)];
+            for gap in NEAR_GAPS_QUICK {
+                out.push((Subject::new(Kind::Inst, seed, false, with_flags(&nq, false, &[])).with_near_full(gap), 5, 120));
+            }
+            // the archive manager alone (objects addressed by the location write_content returned)
+            let aw = [(Class::Rand, 0), (Class::Rand, 100), (Class::Zeros, 1000)];
+            for gap in NEAR_GAPS_QUICK {
+                out.push((Subject::new(Kind::Arch(b'Z'), seed, false, with_flags(&aw, true, &[])).with_near_full(gap), 4, 60));
+            }
         }
     }
     out
 }
+
+/// Distances of the end of `data.000` from 2^30 in the near-full pre-states.
+const NEAR_GAPS_QUICK: [u32; 4] = [0, 1, 100 + ENTRY_OVERHEAD, 100 + ENTRY_OVERHEAD + 1];
+const NEAR_GAPS_THOROUGH: [u32; 10] = [
+    0,
+    1,
+    ENTRY_OVERHEAD,                  // write(0) fills exactly
+    100 + ENTRY_OVERHEAD,            // write(100) fills exactly
+    100 + ENTRY_OVERHEAD + 1,        // ... leaves one byte
+    100 + 2 * ENTRY_OVERHEAD,        // write(100) and write(0), either order, fill exactly
+    1000 + ENTRY_OVERHEAD,           // write(1000) fills exactly
+    1100 + 2 * ENTRY_OVERHEAD,       // write(1000) and write(100) fill exactly
+    1100 + 3 * ENTRY_OVERHEAD,       // three entries fill exactly
+    70_000 + ENTRY_OVERHEAD,         // the large size class fills exactly
+];
 
 /// `IndexManager::load_index` prints "DEBUG: Index 00 first 3 entries" lines with `eprintln!`
 /// whenever bucket 0 has sorted entries; over a million reopen operations that floods
@@ -959,8 +1104,14 @@ fn record_samples(rep: &Report, seed: u64) {
         (Kind::Dyn { lru: true }, vec![w(Class::HdrBlte, 100), Op::Remove(0), w(Class::HdrBlte, 100), Op::Flush]),
         (Kind::Arch(b'Z'), vec![Op::Write { class: Class::Zeros, size: 70_000, compress: true }, w(Class::Rand, 0), Op::Reopen, Op::Read(0)]),
     ];
-    for (kind, hist) in cases {
-        let s = Subject::new(kind, seed, false, Vec::new());
+    let cases: Vec<(Kind, Option<u32>, Vec<Op>)> = cases
+        .into_iter()
+        .map(|(k, h)| (k, None, h))
+        .chain([(Kind::Inst, Some(100 + ENTRY_OVERHEAD), vec![w(Class::Rand, 100), w(Class::Rand, 0), Op::Reopen, Op::Read(1)])])
+        .collect();
+    for (kind, near, hist) in cases {
+        let mut s = Subject::new(kind, seed, false, Vec::new());
+        s.near_full = near;
         let r = s.run(&hist);
         rep.sample(serde_json::json!({
             "config": s.config_name(),
@@ -975,18 +1126,20 @@ fn record_samples(rep: &Report, seed: u64) {
 pub fn run(tier: Tier, seed: u64) -> i32 {
     let rep = Report::new("C04", tier, seed, Level::ModelChecking);
     rep.set_rule(
-        "every admissible history (objects referenced by read/query/remove exist; ≤3 writes; quick: ≤1 write of 70 000 bytes) up to the depth bound over {write(payload class,size[,compress]), read(#j), query(#j), remove(#j), flush, reopen[, compact]} per subject, executed on the real DynamicContainer / Installation / ArchiveManager in lock-step with a map model ekey→payload; every history additionally ends with an audit (query + read of every live key). No state merging (the mmap snapshot of the data file, the installation read cache and the update/sorted split of the index are hidden state), so states = histories; every history is distinct and non-trivial (≥1 operation on the real store)",
+        "every admissible history (objects referenced by read/query/remove exist; ≤3 writes; quick: ≤1 write of 70 000 bytes) up to the depth bound over {write(payload class,size[,compress]), read(#j), query(#j), remove(#j), flush, reopen[, compact]} per subject, executed on the real DynamicContainer / Installation / ArchiveManager in lock-step with a map model ekey→payload; every history additionally ends with an audit (query + read of every live key). Subjects start from the empty store, from a store holding one 200 000-byte object, or from a store whose data.000 ends gap bytes before 2^30 (the end of the 30-bit offset field of an index entry; gap from a list of exact-fit / one-byte-off distances for the entry sizes of the alphabet), so that the enumerated writes fill, exactly fill, straddle or start behind that boundary. No state merging (the mmap snapshot of the data file, the installation read cache and the update/sorted split of the index are hidden state), so states = histories; every history is distinct and non-trivial (≥1 operation on the real store)",
     );
     rep.assume("reference model: BTreeMap encoding key → payload; a key is live from a successful write until a remove of it");
     rep.assume("encoding key of an uncompressed write = MD5('BLTE' 00000000 'N' payload), framed by the harness and hashed with the independent `md5` crate; ArchiveManager objects are addressed by the location and key that write_content returned");
     rep.assume("storage directories live on tmpfs; crash behaviour is C06's subject; 9-byte key-prefix collisions between the ≤ 30 distinct payloads do not occur (checked at start)");
     rep.assume("VERIF_SEED only selects the filler bytes of the payload classes");
+    rep.assume("near-full pre-states: data.000 is given its length of 2^30-gap bytes with set_len (a hole) instead of by writing 1 GiB of objects; ArchiveManager::open_all takes the append position from the file length and nothing reads the hole. DynamicContainer is not run from these pre-states (its open() reads every data file completely into memory: 1 GiB per open); it shares ArchiveManager + IndexManager with Installation");
 
     // the payload table must not contain two payloads with the same 9-byte key prefix
     {
         let mut seen: BTreeMap<[u8; 9], (Class, u32)> = BTreeMap::new();
         let mut all = full_writes();
         all.push((Class::Rand, PREFILL_SIZE));
+        all.push((Class::Rand, NEAR_PRE_SIZE));
         for (c, s) in all {
             let k = ekey_n(&make_payload(c, s, seed));
             let mut p = [0u8; 9];
@@ -1001,9 +1154,11 @@ pub fn run(tier: Tier, seed: u64) -> i32 {
     record_samples(&rep, seed);
 
     let mut per_subject = Vec::new();
-    let mut tot = [0u64; 10];
+    let mut tot = [0u64; 13];
     for (s, depth, budget) in subjects(tier, seed) {
+        let started = std::time::Instant::now();
         let st = explore(&s, &SeqBounds::depth(depth).with_budget(budget), &rep);
+        let wall_s = (started.elapsed().as_secs_f64() * 10.0).round() / 10.0;
         let c = &s.ctr;
         let vals = [
             c.reads_judged.load(Ordering::Relaxed),
@@ -1016,7 +1171,13 @@ pub fn run(tier: Tier, seed: u64) -> i32 {
             c.same_key_rewrites.load(Ordering::Relaxed),
             c.writes_not_doubling.load(Ordering::Relaxed),
             c.writes_doubling.load(Ordering::Relaxed),
+            c.hist_rolled_over.load(Ordering::Relaxed),
+            c.hist_past_field_limit.load(Ordering::Relaxed),
+            c.hist_exact_fill.load(Ordering::Relaxed),
         ];
+        if s.near_full.is_some() && st.violations == 0 && vals[10] + vals[11] == 0 {
+            rep.machinery_error(&format!("{}: no history moved the end of the stored data past 2^30 (neither a longer data.000 nor a data.001 was seen): the near-full pre-state does not do its job", s.config_name()));
+        }
         for (t, v) in tot.iter_mut().zip(vals.iter()) {
             *t += *v;
         }
@@ -1033,6 +1194,11 @@ pub fn run(tier: Tier, seed: u64) -> i32 {
             "reads_judged": vals[0],
             "reads_exact": vals[1],
             "write_errors": vals[4],
+            "wall_s": wall_s,
+            "near_full_gap": s.near_full,
+            "runs_ending_with_data.001": vals[10],
+            "runs_ending_with_data.000_longer_than_2^30": vals[11],
+            "runs_ending_with_data.000_of_exactly_2^30": vals[12],
         }));
     }
     rep.extra(
@@ -1041,6 +1207,9 @@ pub fn run(tier: Tier, seed: u64) -> i32 {
             "size_classes": SIZES,
             "payload_classes": CLASSES.iter().map(|c| c.name()).collect::<Vec<_>>(),
             "prefill_object_bytes": PREFILL_SIZE,
+            "near_full_pre_object_bytes": NEAR_PRE_SIZE,
+            "near_full_gaps": match tier { Tier::Quick => NEAR_GAPS_QUICK.to_vec(), Tier::Thorough => NEAR_GAPS_THOROUGH.to_vec() },
+            "entry_overhead_bytes": ENTRY_OVERHEAD,
             "per_subject": per_subject,
         }),
     );
@@ -1051,6 +1220,9 @@ pub fn run(tier: Tier, seed: u64) -> i32 {
             "queries_judged": tot[3], "failed_writes_not_judged": tot[4], "installation_keys_taken_from_index": tot[5],
             "reopen_failed_with_nothing_stored": tot[6], "writes_of_an_already_live_key": tot[7],
             "writes_that_do_not_double_the_data_file": tot[8], "writes_that_more_than_double_it": tot[9],
+            "near_full_runs_ending_with_data.001": tot[10],
+            "near_full_runs_ending_with_data.000_longer_than_2^30": tot[11],
+            "near_full_runs_ending_with_data.000_of_exactly_2^30": tot[12],
         }),
     );
     drop(gag);
@@ -1070,7 +1242,7 @@ pub fn run(tier: Tier, seed: u64) -> i32 {
     rep.finish()
 }
 
-fn parse_config(cfg: &str) -> Option<(Kind, bool, u64)> {
+fn parse_config(cfg: &str) -> Option<(Kind, bool, u64, Option<u32>)> {
     let mut parts = cfg.split('|');
     let label = parts.next()?;
     let prefill = parts.next()?.strip_prefix("prefill=")? == "true";
@@ -1086,13 +1258,17 @@ fn parse_config(cfg: &str) -> Option<(Kind, bool, u64)> {
     } else {
         return None;
     };
-    Some((kind, prefill, seed))
+    let near_full = match parts.next() {
+        Some(p) => Some(p.strip_prefix("gap=")?.parse().ok()?),
+        None => None,
+    };
+    Some((kind, prefill, seed, near_full))
 }
 
 /// Replay a witness written by `run` (`core_ops` hold the Debug form of the operations).
 pub fn replay(w: &serde_json::Value) -> i32 {
     let cfg = w["witness"]["config"].as_str().unwrap_or("");
-    let Some((kind, prefill, seed)) = parse_config(cfg) else {
+    let Some((kind, prefill, seed, near_full)) = parse_config(cfg) else {
         println!("MACHINERY-ERROR: cannot parse config {cfg:?}");
         return 2;
     };
@@ -1106,7 +1282,8 @@ pub fn replay(w: &serde_json::Value) -> i32 {
             }
         }
     }
-    let subj = Subject::new(kind, seed, prefill, Vec::new());
+    let mut subj = Subject::new(kind, seed, prefill, Vec::new());
+    subj.near_full = near_full;
     // a panicking subject is reported as the observation, not as a backtrace flood
     crate::util::install_quiet_panic_hook();
     println!("replaying on {}: {}", subj.config_name(), subj.canon(&ops));
